@@ -137,9 +137,35 @@ def add_class_diagram(r, ids, rows, name):
     return did
 
 
-def write_project(r, path, diagrams, class_diagrams=1, shuffle_tables=True):
-    """diagrams: list of abstract state diagrams; returns dict(name -> diagram id)"""
-    ids = Ids(r)
+def revise(r, diagrams):
+    """a later revision of the same drawing: same elements (the project keeps their ids), some of them renamed,
+    re-wired or stripped of their guard"""
+    import copy
+    out = copy.deepcopy(diagrams)
+    for d in out:
+        taken = set(d["states"]) | set(d.get("activities", [])) | {t["event"] for t in d["transitions"]}
+        for k in range(len(d["states"])):
+            if r.random() < 0.4:
+                d["states"][k] = rand_name(r, "State", taken)
+        for k in range(len(d.get("activities", []))):
+            if r.random() < 0.3:
+                d["activities"][k] = rand_name(r, "On", taken)
+        for t in d["transitions"]:
+            k = r.randrange(5)
+            if k == 0:
+                t["event"] = rand_name(r, "Event", taken)
+            elif k == 1:
+                t["dst"] = r.randrange(len(d["states"]))
+            elif k == 2 and t.get("guard"):
+                t["guard"] = rand_name(r, "Guard", taken)
+    return out
+
+
+def write_project(r, path, diagrams, class_diagrams=1, shuffle_tables=True, id_seed=None):
+    """diagrams: list of abstract state diagrams; returns dict(name -> diagram id).  With `id_seed` the element ids are
+    drawn from their own stream, so that a revision of the same drawing keeps them."""
+    import random as _random
+    ids = Ids(r if id_seed is None else _random.Random(id_seed))
     rows = dict(models=[], diagrams=[], elems=[])
     order = [("sd", d) for d in diagrams] + [("cd", "ClassDiagram%d" % i) for i in range(class_diagrams)]
     r.shuffle(order)
